@@ -225,18 +225,20 @@ REFINED = [
     "bitand_large / bitor_large / bitxor_large / and_not_large (+ _large_dword forms)",
     "BitAnd/BitOr/BitXor/AndNot dispatch on TypedRepr (inline/heap, lowest_dword shortcuts)",
     "TypedRepr::add_one / sub_one", "Not for IBig",
-    "impl_ibig_bitand / impl_ibig_bitor / impl_ibig_bitxor (sign tables), impl_ubig_ibig_bitand, impl_ibig_ubig_bitand",
+    "impl_ibig_bitand / impl_ibig_bitor / impl_ibig_bitxor (sign tables; hand model and text regenerated from source), "
+    "impl_ubig_ibig_bitand, impl_ibig_ubig_bitand",
     "shift::shl_in_place, shr_in_place_with_carry, math::shl_dword, shl_dword/shl_one_spilled/shl_dword_spilled, shl_large(_ref)",
     "shr_dword, shr_large, shr_large_ref; Shl/Shr for IBig incl. are_dword_low_bits_nonzero / are_slice_low_bits_nonzero",
     "TypedReprRef::bit, BitTest::bit for IBig (negative arm)", "trailing_zeros_large, TypedReprRef::trailing_zeros",
-    "trailing_ones_large, TypedReprRef::trailing_ones", "Repr::ones", "clear_high_bits(_large)", "split_bits", "bit_len",
+    "trailing_ones_large, TypedReprRef::trailing_ones", "trailing_zeros_large_shifted_by_one, trailing_ones_neg",
+    "Repr::ones", "clear_high_bits(_large)", "split_bits", "bit_len",
+    "set_bit (with_bit_dword_spilled, with_bit_large)", "clear_bit", "count_ones", "count_zeros", "is_power_of_two",
+    "next_power_of_two (next_power_of_two_large, checked_next_power_of_two spill)",
 ]
 FRONTIER = [
-    "mirrored, compared with the specification on every case by the driver, refinement theorem not yet written: "
-    "set_bit (with_bit_dword_spilled/with_bit_large), clear_bit, trailing_ones_neg + trailing_zeros_large_shifted_by_one "
-    "(IBig::trailing_ones of negatives), count_ones, count_zeros, is_power_of_two, next_power_of_two(_large)",
     "primitive-operand forms: modelled as convert-then-operate (what impl_binop_with_primitive does); only the "
-    "`x & v in [0, v]` no-panic fact is a theorem",
+    "`x & v in [0, v]` no-panic fact is a theorem, the conversions themselves are C06",
+    "specTz (driver-side trailing-zero search): certified per call by the decidable relation IsTz, completeness not proved",
 ]
 
 EXPLANATION = ("Theorems (all W >= 1, all lengths, canonical operands): the IBig sign tables composed with the unsigned word loops "
@@ -244,7 +246,9 @@ EXPLANATION = ("Theorems (all W >= 1, all lengths, canonical operands): the IBig
                "operands and canonical results; mixed UBig/IBig AND equals the signed AND; << is *2^n; UBig >> is div 2^n in both "
                "implementations; IBig >> is floor division by 2^n; bit(n) on UBig/IBig is the n-th two's-complement bit; "
                "trailing_zeros/trailing_ones return the unique k with 2^k | x (resp. x+1) and odd quotient, without panics; "
-               "ones(n) = 2^n-1 and canonical; clear_high_bits = mod 2^n, split_bits = (mod, div), bit_len = floor(log2)+1. "
+               "ones(n) = 2^n-1 and canonical; clear_high_bits = mod 2^n, split_bits = (mod, div), bit_len = floor(log2)+1; set_bit/clear_bit "
+               "change exactly bit n; count_ones = popcount, count_zeros = bit_len - popcount; is_power_of_two <=> 2^k; "
+               "next_power_of_two = least power of two >= x; IBig::trailing_ones of -v = trailing zeros of v-1. "
                "For the three defects repaired during this work (754b193, 94ebcdb, 283f2ad) a separately kept model of the old "
                "code is proved correct exactly outside the defect class and wrong on the witness.")
 ASSUMPTIONS = ["machine-word primitives (&,|,^,!,<<,>>, leading/trailing_zeros, count_ones, checked_next_power_of_two) "
@@ -259,7 +263,8 @@ THEOREMS = ["Dashu.Props.C09." + n for n in [
     "and_with_nonneg_fits", "ubig_and_or_xor", "shl_exact", "ibig_shl_exact", "shr_exact", "ibig_shr_floor",
     "ibig_shr_asis_outside_defect", "ibig_shr_asis_counterexample", "ubig_bit", "ibig_bit", "trailing_zeros",
     "trailing_count_unique", "trailing_ones", "trailing_ones_asis_outside_defect", "trailing_ones_asis_counterexample",
-    "ones_exact", "ones_asis_counterexample", "clear_high_bits", "split_bits", "bit_len"]] + [
+    "ones_exact", "ones_asis_counterexample", "clear_high_bits", "split_bits", "bit_len", "set_bit", "clear_bit", "count_ones",
+    "count_zeros", "is_power_of_two", "next_power_of_two", "trailing_ones_negative", "driver_specs"]] + [
     "Dashu.Props.GenBits." + n for n in ["gen_ibig_bitand", "gen_ibig_bitor", "gen_ibig_bitxor",
                                          "gen_ibig_bitand_bits", "gen_ibig_bitor_bits", "gen_ibig_bitxor_bits"]]
 
@@ -277,11 +282,11 @@ LEVEL_TEXT = ("Machine-checked Lean 4 theorems, for every word size and operand 
               "or as mod/div/2-adic valuation) and return canonical representations; the hand-written model is tied to /repo on "
               "every run by differential execution of model and real code over operands of exactly 0..9 (thorough: ..100) words in "
               "all the boundary patterns of the code, every sign pair, every call form, shift counts/bit positions at all "
-              "multiples of the word size and beyond the length. set_bit/clear_bit, count_ones/zeros, is/next_power_of_two and the "
-              "negative arm of IBig::trailing_ones are mirrored and compared with the specification per case but not yet covered "
-              "by a refinement theorem.")
+              "multiples of the word size and beyond the length. Every operation named in the property (incl. set_bit/clear_bit, "
+              "count_ones/zeros, is/next_power_of_two, trailing_ones of negatives) has its refinement theorem; primitive-operand "
+              "forms are modelled as convert-then-operate and checked by correspondence.")
 LEVEL_NOTE = ("Trusted: Lean kernel; axioms propext/Classical.choice/Quot.sound; the correspondence harness and generators "
               "(sampling) for the tie model<->code; machine-word primitives at their documented contracts; operands assumed "
-              "canonical (producer side is C05/C17). Operations listed under frontier_kernels are decided by the correspondence "
+              "canonical (producer side is C05/C17). Items listed under frontier_kernels are decided by the correspondence "
               "against an independently computed specification, not by a theorem.")
 TECHNIQUE = "Lean 4 refinement proofs (bit-extensionality via Nat.testBit / Int.testBit, all W) + differential correspondence model vs real code"
